@@ -67,7 +67,14 @@ impl InferShapes for Slice {
                         end => Some(end as isize),
                     };
 
-                    let range = SliceRange::new(*start as isize, end, *step as isize);
+                    // When slicing backwards, a start before the first
+                    // element is clamped to the first element.
+                    let start = if *step < 0 {
+                        (*start).max(-size)
+                    } else {
+                        *start
+                    };
+                    let range = SliceRange::new(start as isize, end, *step as isize);
 
                     // When slicing a symbolic vec along axis 0, the result can
                     // also be a symbolic vec.
